@@ -398,207 +398,78 @@ Proof.
   apply Qlt_le_weak. apply incr_mono; [assumption | lia].
 Qed.
 
-Lemma NoDup_nth_inj : forall (l : list nat) i j, NoDup l -> (i < length l)%nat -> (j < length l)%nat ->
-    nth i l 0%nat = nth j l 0%nat -> i = j.
-Proof. intros l i j Hnd Hi Hj E. exact (proj1 (NoDup_nth l 0%nat) Hnd i j Hi Hj E). Qed.
-
-Lemma in_matches : forall (maxt : list nat) v c,
-    In c (map fst (filter (fun cm => Nat.eqb (snd cm) v) (combine (seq 0 (length maxt)) maxt))) ->
-    (c < length maxt)%nat /\ nth c maxt 0%nat = v.
-Proof.
-  intros maxt v c H. apply in_map_iff in H. destruct H as [[c' m] [Hc Hin]]. simpl in Hc. subst c'.
-  apply filter_In in Hin. destruct Hin as [Hin Hm]. simpl in Hm. apply Nat.eqb_eq in Hm. subst m.
-  assert (Hlen : length (seq 0 (length maxt)) = length maxt) by apply seq_length.
-  apply (In_nth _ _ (0%nat, 0%nat)) in Hin. destruct Hin as [k [Hk Hn]].
-  rewrite combine_length, Hlen, Nat.min_id in Hk. rewrite combine_nth in Hn by exact Hlen.
-  injection Hn as H1 H2. rewrite seq_nth in H1 by exact Hk. simpl in H1. subst k.
-  split; [exact Hk | exact H2].
-Qed.
+Lemma filter_len_le {A : Type} (f : A -> bool) : forall l, (length (filter f l) <= length l)%nat.
+Proof. induction l as [|a l IH]; simpl; [lia|]. destruct (f a); simpl; lia. Qed.
 
 Section Line.
-  Variable ps : list Q.           (* vertex coordinates, ascending: p[0, ix] *)
-  Variable ixs : list nat.        (* vertex numbers in that order: ix *)
-  Variable pos : list nat.        (* cell c spans [ps[pos_c], ps[pos_c + 1]] *)
-  Hypothesis Hinc : incr ps.
-  Hypothesis Hlen : length ixs = length ps.
-  Hypothesis Hnd : NoDup ixs.
-  Hypothesis Hn2 : (2 <= length ps)%nat.
-  Hypothesis Hpos : forall j, In j pos -> (S j < length ps)%nat.
-  (* maxt: the vertex number of the right end of every cell *)
-  Definition maxt_of : list nat := map (fun j => nth (S j) ixs 0%nat) pos.
+  Variable lefts rights : list Q.   (* end points of the cells, cells sorted by left end *)
+  Variable ixs : list nat.          (* the cell numbers in that order (any numbering) *)
+  Hypothesis Hinc : incr lefts.                                      (* distinct left ends *)
+  Hypothesis Hlr : length rights = length lefts.
+  Hypothesis Hli : length ixs = length lefts.
+  Hypothesis Hcell : forall k, (k < length lefts)%nat -> nth k lefts 0 <= nth k rights 0.
+  (* cells do not overlap (they may touch, and there may be gaps between them) *)
+  Hypothesis Hsep : forall k, (S k < length lefts)%nat -> nth k rights 0 <= nth (S k) lefts 0.
 
-  Theorem line_finder1_sound : forall x c, In c (line_finder1 ps ixs maxt_of x) ->
-      nth (nth c pos 0%nat) ps 0 <= x <= nth (S (nth c pos 0%nat)) ps 0.
+  Theorem line_finder1_sound : forall x c, line_finder1 lefts rights ixs x = Some c ->
+      exists k, (k < length lefts)%nat /\ nth_error ixs k = Some c /\ nth k lefts 0 <= x <= nth k rights 0.
   Proof.
-    intros x c H. unfold line_finder1 in H.
-    pose (n := length ps). assert (En : length ps = n) by reflexivity. rewrite En in *. clearbody n.
-    set (last := nth (n - 1) ps 0) in *.
-    set (xin := if Qeq_bool x last then (nth (n - 2) ps 0 + last) / 2 else x) in *.
-    set (i := digitize ps xin) in *.
-    destruct (nth_error ixs i) as [v|] eqn:Ev; [|destruct H].
-    apply in_matches in H. destruct H as [Hc Hm]. unfold maxt_of in Hc, Hm. rewrite map_length in Hc.
-    set (j := nth c pos 0%nat) in *.
-    assert (Hj : In j pos) by (apply nth_In; exact Hc).
-    assert (HSj : (S j < n)%nat) by (apply Hpos; exact Hj).
-    rewrite (nth_indep _ 0%nat (nth (S 0) ixs 0%nat)) in Hm by (rewrite map_length; exact Hc).
-    rewrite (map_nth (fun j => nth (S j) ixs 0%nat)) in Hm. fold j in Hm.
-    assert (Hi : (i < length ixs)%nat) by (apply nth_error_Some; congruence).
-    assert (Hvi : nth i ixs 0%nat = v) by (apply nth_error_nth; exact Ev).
-    assert (Eij : S j = i). { apply (NoDup_nth_inj ixs); try assumption; [rewrite Hlen; exact HSj | congruence]. }
-    destruct (digitize_spec ps xin Hinc) as [D1 D2]. fold i in D1, D2.
-    assert (L1 : nth j ps 0 <= xin) by (apply D1; lia).
-    assert (L2 : xin < nth (S j) ps 0) by (rewrite Eij; apply D2; lia).
-    unfold xin in L1, L2. destruct (Qeq_bool x last) eqn:Ex.
-    - apply Qeq_bool_iff in Ex.
-      assert (Hmid1 : nth (n - 2) ps 0 < (nth (n - 2) ps 0 + last) / 2).
-      { assert (Hl : nth (n - 2) ps 0 < last) by (apply incr_mono; [exact Hinc | lia]).
-        apply Qlt_shift_div_l; [reflexivity|]. setoid_replace (nth (n - 2) ps 0 * 2) with (nth (n - 2) ps 0 + nth (n - 2) ps 0) by ring.
-        apply Qplus_lt_r. exact Hl. }
-      assert (Hmid2 : (nth (n - 2) ps 0 + last) / 2 < last).
-      { assert (Hl : nth (n - 2) ps 0 < last) by (apply incr_mono; [exact Hinc | lia]).
-        apply Qlt_shift_div_r; [reflexivity|]. setoid_replace (last * 2) with (last + last) by ring.
-        apply Qplus_lt_l. exact Hl. }
-      assert (Ej : S j = (n - 1)%nat).
-      { destruct (le_lt_dec (S j) (n - 2)) as [Hle|Hgt]; [|lia]. exfalso.
-        assert (Hm2 : nth (S j) ps 0 <= nth (n - 2) ps 0) by (apply incr_mono_le; [exact Hinc | lia]).
-        apply (Qlt_irrefl (nth (n - 2) ps 0)). eapply Qlt_le_trans; [exact Hmid1|].
-        eapply Qle_trans; [apply Qlt_le_weak; exact L2 | exact Hm2]. }
-      rewrite Ej. fold last. rewrite Ex. split; [|apply Qle_refl].
-      eapply Qle_trans; [exact L1|]. apply Qlt_le_weak. exact Hmid2.
-    - split; [exact L1 | apply Qlt_le_weak; exact L2].
+    intros x c H. unfold line_finder1 in H. destruct (digitize lefts x) as [|k] eqn:E; [discriminate|].
+    destruct (Qle_bool x (nth k rights 0)) eqn:Er; [|discriminate]. apply Qle_bool_iff in Er.
+    destruct (digitize_spec lefts x Hinc) as [D1 _]. rewrite E in D1.
+    assert (Hk : (k < length ixs)%nat) by (apply nth_error_Some; congruence).
+    exists k. split; [lia|]. split; [exact H|]. split; [apply D1; lia | exact Er].
   Qed.
 
-  (* completeness: every interval has a cell  =>  every x in [ps[0], ps[n-1]] is located *)
-  Hypothesis Hall : forall j, (S j < length ps)%nat -> In j pos.
-
-  Theorem line_finder1_complete : forall x, nth 0 ps 0 <= x <= nth (length ps - 1) ps 0 ->
-      line_finder1 ps ixs maxt_of x <> [].
+  Lemma rights_le_later_lefts : forall j k, (j < k < length lefts)%nat -> nth j rights 0 <= nth k lefts 0.
   Proof.
-    intros x [Hlo Hhi]. unfold line_finder1.
-    pose (n := length ps). assert (En : length ps = n) by reflexivity. rewrite En in *. clearbody n.
-    set (last := nth (n - 1) ps 0) in *.
-    set (xin := if Qeq_bool x last then (nth (n - 2) ps 0 + last) / 2 else x).
-    set (i := digitize ps xin).
-    assert (Hl : nth (n - 2) ps 0 < last) by (apply incr_mono; [exact Hinc | lia]).
-    assert (Hxin : nth 0 ps 0 <= xin /\ xin < last).
-    { unfold xin. destruct (Qeq_bool x last) eqn:Ex.
-      - split.
-        + eapply Qle_trans; [apply (incr_mono_le ps 0 (n - 2) Hinc); lia|].
-          apply Qle_shift_div_l; [reflexivity|]. setoid_replace (nth (n - 2) ps 0 * 2) with (nth (n - 2) ps 0 + nth (n - 2) ps 0) by ring.
-          apply Qplus_le_r. apply Qlt_le_weak. exact Hl.
-        + apply Qlt_shift_div_r; [reflexivity|]. setoid_replace (last * 2) with (last + last) by ring. apply Qplus_lt_l. exact Hl.
-      - split; [exact Hlo|]. apply Qle_lteq in Hhi. destruct Hhi as [Hlt|Heq]; [exact Hlt|].
-        apply Qeq_bool_iff in Heq. fold last in Heq. congruence. }
-    destruct Hxin as [X1 X2].
-    destruct (digitize_spec ps xin Hinc) as [D1 D2]. fold i in D1, D2.
-    assert (Hi1 : (1 <= i)%nat).
-    { destruct i as [|i'] eqn:Ei; [|lia]. exfalso. specialize (D2 0%nat). apply (Qlt_irrefl xin).
-      eapply Qlt_le_trans; [apply D2; lia | exact X1]. }
-    assert (Hi2 : (i < n)%nat).
-    { destruct (le_lt_dec n i) as [Hge|Hlt]; [|exact Hlt]. exfalso. specialize (D1 (n - 1)%nat).
-      apply (Qlt_irrefl xin). eapply Qlt_le_trans; [exact X2 | apply D1; lia]. }
-    destruct (nth_error ixs i) as [v|] eqn:Ev; [|apply nth_error_None in Ev; lia].
-    assert (Hin : In (i - 1)%nat pos) by (apply Hall; lia).
-    apply (In_nth _ _ 0%nat) in Hin. destruct Hin as [c [Hc Hcp]].
-    intros Hnil.
-    assert (Hmem : In c (map fst (filter (fun cm => Nat.eqb (snd cm) v) (combine (seq 0 (length maxt_of)) maxt_of)))).
-    { apply in_map_iff. exists (c, nth c maxt_of 0%nat). split; [reflexivity|]. apply filter_In. split.
-      - assert (Hl2 : length (seq 0 (length maxt_of)) = length maxt_of) by apply seq_length.
-        replace (c, nth c maxt_of 0%nat) with (nth c (combine (seq 0 (length maxt_of)) maxt_of) (0%nat, 0%nat)).
-        + apply nth_In. rewrite combine_length, Hl2, Nat.min_id. unfold maxt_of. now rewrite map_length.
-        + rewrite combine_nth by exact Hl2. rewrite seq_nth by (unfold maxt_of; now rewrite map_length). reflexivity.
-      - simpl. apply Nat.eqb_eq. unfold maxt_of.
-        rewrite (nth_indep _ 0%nat (nth (S 0) ixs 0%nat)) by (rewrite map_length; exact Hc).
-        rewrite (map_nth (fun j => nth (S j) ixs 0%nat)). rewrite Hcp.
-        replace (S (i - 1)) with i by lia. apply nth_error_nth. exact Ev. }
-    rewrite Hnil in Hmem. destruct Hmem.
+    intros j k Hjk. eapply Qle_trans; [apply (Hsep j); lia|].
+    destruct (Nat.eq_dec (S j) k) as [->|Hne]; [apply Qle_refl|]. apply incr_mono_le; [exact Hinc | lia].
   Qed.
 
-  Hypothesis Hposnd : NoDup pos.
-
-  Lemma matches_NoDup : forall (maxt : list nat) v,
-      NoDup (map fst (filter (fun cm => Nat.eqb (snd cm) v) (combine (seq 0 (length maxt)) maxt))).
+  Theorem line_finder1_complete : forall x j, (j < length lefts)%nat -> nth j lefts 0 <= x <= nth j rights 0 ->
+      exists c, line_finder1 lefts rights ixs x = Some c.
   Proof.
-    intros maxt v. generalize 0%nat. induction maxt as [|m maxt IH]; intros s; simpl; [constructor|].
-    destruct (Nat.eqb m v); simpl; [|apply IH]. constructor; [|apply IH].
-    intros Hin. apply in_map_iff in Hin. destruct Hin as [[c m'] [Hc Hf]]. simpl in Hc. subst c.
-    apply filter_In in Hf. destruct Hf as [Hf _]. apply in_combine_l in Hf. apply in_seq in Hf. lia.
+    intros x j Hj [Hlo Hhi]. unfold line_finder1.
+    destruct (digitize_spec lefts x Hinc) as [D1 D2].
+    destruct (digitize lefts x) as [|k] eqn:E.
+    - exfalso. apply (Qlt_irrefl x). eapply Qlt_le_trans; [apply (D2 j); lia | exact Hlo].
+    - assert (Hkn : (k < length lefts)%nat).
+      { destruct (le_lt_dec (length lefts) k) as [Hge|Hlt]; [|exact Hlt]. exfalso.
+        unfold digitize in E. pose proof (filter_len_le (fun p => Qle_bool p x) lefts). lia. }
+      assert (Hjk : (j <= k)%nat).
+      { destruct (le_lt_dec j k) as [H|H]; [exact H|]. exfalso. apply (Qlt_irrefl x).
+        eapply Qlt_le_trans; [apply (D2 j); lia | exact Hlo]. }
+      assert (Hx : x <= nth k rights 0).
+      { destruct (Nat.eq_dec j k) as [->|Hne]; [exact Hhi|].
+        assert (L1 : nth k lefts 0 <= x) by (apply D1; lia).
+        assert (L2 : x <= nth k lefts 0) by (eapply Qle_trans; [exact Hhi | apply rights_le_later_lefts; lia]).
+        eapply Qle_trans; [exact L2 | apply Hcell; exact Hkn]. }
+      apply Qle_bool_iff in Hx. rewrite Hx.
+      destruct (nth_error ixs k) as [c|] eqn:Ec; [now exists c|]. apply nth_error_None in Ec. lia.
   Qed.
 
-  Lemma line_finder1_at_most_one : forall x, (length (line_finder1 ps ixs maxt_of x) <= 1)%nat.
-  Proof.
-    intros x. unfold line_finder1.
-    destruct (nth_error ixs (digitize ps (if Qeq_bool x (nth (length ps - 1) ps 0)
-               then (nth (length ps - 2) ps 0 + nth (length ps - 1) ps 0) / 2 else x))) as [v|] eqn:Ev; [|simpl; lia].
-    set (r := map fst (filter (fun cm => Nat.eqb (snd cm) v) (combine (seq 0 (length maxt_of)) maxt_of))).
-    assert (Hnd2 : NoDup r) by apply matches_NoDup.
-    assert (Hsame : forall c c', In c r -> In c' r -> c = c').
-    { intros c c' Hc Hc'. apply in_matches in Hc. apply in_matches in Hc'. destruct Hc as [L1 M1]. destruct Hc' as [L2 M2].
-      unfold maxt_of in *. rewrite map_length in L1, L2.
-      rewrite (nth_indep _ 0%nat (nth (S 0) ixs 0%nat)) in M1 by (rewrite map_length; assumption).
-      rewrite (nth_indep _ 0%nat (nth (S 0) ixs 0%nat)) in M2 by (rewrite map_length; assumption).
-      rewrite (map_nth (fun j => nth (S j) ixs 0%nat)) in M1. rewrite (map_nth (fun j => nth (S j) ixs 0%nat)) in M2.
-      assert (E : S (nth c pos 0%nat) = S (nth c' pos 0%nat)).
-      { apply (NoDup_nth_inj ixs); try assumption; try (rewrite Hlen; apply Hpos; apply nth_In; assumption). congruence. }
-      apply (proj1 (NoDup_nth pos 0%nat) Hposnd); try assumption. lia. }
-    destruct r as [|a [|b r']]; simpl; try lia. exfalso.
-    assert (a = b) by (apply Hsame; simpl; auto). subst b. inversion Hnd2 as [|? ? Hni _]. apply Hni. now left.
-  Qed.
-
-  Lemma line_finder1_outside : forall x, (x < nth 0 ps 0 \/ nth (length ps - 1) ps 0 < x) -> line_finder1 ps ixs maxt_of x = [].
-  Proof.
-    intros x Hout. destruct (line_finder1 ps ixs maxt_of x) as [|c r] eqn:E; [reflexivity|]. exfalso.
-    assert (Hc : In c (line_finder1 ps ixs maxt_of x)) by (rewrite E; now left).
-    apply line_finder1_sound in Hc. destruct Hc as [L1 L2].
-    assert (Hj : In (nth c pos 0%nat) pos).
-    { apply nth_In. assert (Hc2 : In c (line_finder1 ps ixs maxt_of x)) by (rewrite E; now left).
-      unfold line_finder1 in Hc2. destruct (nth_error ixs _); [|destruct Hc2]. apply in_matches in Hc2.
-      unfold maxt_of in Hc2. rewrite map_length in Hc2. tauto. }
-    specialize (Hpos _ Hj). destruct Hout as [Ho|Ho].
-    - apply (Qlt_irrefl x). eapply Qlt_le_trans; [exact Ho|]. eapply Qle_trans; [|exact L1].
-      apply incr_mono_le; [exact Hinc | lia].
-    - apply (Qlt_irrefl x). eapply Qle_lt_trans; [exact L2|]. eapply Qle_lt_trans; [|exact Ho].
-      apply incr_mono_le; [exact Hinc | lia].
-  Qed.
-
-  Lemma concat_len_le : forall (ls : list (list nat)), (forall l, In l ls -> (length l <= 1)%nat) -> (length (concat ls) <= length ls)%nat.
-  Proof.
-    induction ls as [|l ls IH]; intros H; simpl; [lia|]. rewrite app_length.
-    specialize (H l (or_introl eq_refl)) as Hl. assert (length (concat ls) <= length ls)%nat by (apply IH; intros; apply H; now right). lia.
-  Qed.
-
-  (* the whole batch: every point of [ps[0], ps[n-1]] gets exactly one cell, which contains it; a point outside makes the
-     call fail *)
+  (* the batch: every point of some cell is located in a cell containing it; a point in no cell (outside, or in a gap)
+     makes the call fail *)
   Theorem line_finder_spec : forall xs,
-      ((forall x, In x xs -> nth 0 ps 0 <= x <= nth (length ps - 1) ps 0) ->
-         exists r, line_finder ps ixs maxt_of xs = Some r /\
-                   Forall2 (fun x c => nth (nth c pos 0%nat) ps 0 <= x <= nth (S (nth c pos 0%nat)) ps 0) xs r) /\
-      ((exists x, In x xs /\ (x < nth 0 ps 0 \/ nth (length ps - 1) ps 0 < x)) -> line_finder ps ixs maxt_of xs = None).
+      ((forall x, In x xs -> exists j, (j < length lefts)%nat /\ nth j lefts 0 <= x <= nth j rights 0) ->
+         exists r, line_finder lefts rights ixs xs = Some r /\
+                   Forall2 (fun x c => exists k, (k < length lefts)%nat /\ nth_error ixs k = Some c /\ nth k lefts 0 <= x <= nth k rights 0) xs r) /\
+      ((exists x, In x xs /\ forall j, (j < length lefts)%nat -> ~ (nth j lefts 0 <= x <= nth j rights 0)) ->
+         line_finder lefts rights ixs xs = None).
   Proof.
     intros xs. split.
-    - intros Hin. unfold line_finder.
-      assert (Hone : forall x, In x xs -> exists c, line_finder1 ps ixs maxt_of x = [c]).
-      { intros x Hx. pose proof (line_finder1_at_most_one x) as Hle. pose proof (line_finder1_complete x (Hin x Hx)) as Hne.
-        destruct (line_finder1 ps ixs maxt_of x) as [|c [|d r]]; [congruence | now exists c | simpl in Hle; lia]. }
-      assert (Hr : exists r, concat (map (line_finder1 ps ixs maxt_of) xs) = r /\ length r = length xs /\
-                   Forall2 (fun x c => nth (nth c pos 0%nat) ps 0 <= x <= nth (S (nth c pos 0%nat)) ps 0) xs r).
-      { clear Hin. induction xs as [|x xs IH]; [exists []; repeat split; constructor|].
-        destruct (Hone x (or_introl eq_refl)) as [c Ec]. destruct IH as [r [Er [Hl Hf]]]; [intros y Hy; apply Hone; now right|].
-        exists (c :: r). simpl. rewrite Ec, Er. simpl. repeat split; [now rewrite Hl|].
-        constructor; [|exact Hf]. apply line_finder1_sound. rewrite Ec. now left. }
-      destruct Hr as [r [Er [Hl Hf]]]. exists r. rewrite Er. split; [|exact Hf].
-      assert (E : (length r <? length xs)%nat = false) by (apply Nat.ltb_ge; lia). now rewrite E.
-    - intros [x [Hx Hout]]. unfold line_finder.
-      assert (Hlt : (length (concat (map (line_finder1 ps ixs maxt_of) xs)) < length xs)%nat).
-      { clear -Hx Hout Hinc Hlen Hnd Hn2 Hpos Hall Hposnd. induction xs as [|y xs IH]; [destruct Hx|].
-        simpl. rewrite app_length. destruct Hx as [->|Hx].
-        - rewrite (line_finder1_outside x Hout). simpl.
-          pose proof (concat_len_le (map (line_finder1 ps ixs maxt_of) xs)) as Hc. rewrite map_length in Hc.
-          assert (length (concat (map (line_finder1 ps ixs maxt_of) xs)) <= length xs)%nat.
-          { apply Hc. intros l Hl. apply in_map_iff in Hl. destruct Hl as [z [<- _]]. apply line_finder1_at_most_one. }
-          lia.
-        - pose proof (line_finder1_at_most_one y). specialize (IH Hx). lia. }
-      apply Nat.ltb_lt in Hlt. now rewrite Hlt.
+    - intros H. unfold line_finder.
+      destruct (all_some_Some (map (line_finder1 lefts rights ixs) xs)) as [r Hr].
+      + intros o Ho Hn. subst o. apply in_map_iff in Ho. destruct Ho as [x [Hx Hin]].
+        destruct (H x Hin) as [j [Hj Hc]]. destruct (line_finder1_complete x j Hj Hc) as [c Hc']. congruence.
+      + exists r. split; [exact Hr|]. apply all_some_Forall2 in Hr.
+        remember (map (line_finder1 lefts rights ixs) xs) as l eqn:El. clear H. revert xs El.
+        induction Hr as [|o a l r Hoa Hr IH]; intros xs El; destruct xs as [|x xs]; try discriminate; [constructor|].
+        simpl in El. inversion El; subst. constructor; [now apply line_finder1_sound | now apply IH].
+    - intros [x [Hin Hno]]. unfold line_finder. apply all_some_None. apply in_map_iff. exists x. split; [|exact Hin].
+      destruct (line_finder1 lefts rights ixs x) as [c|] eqn:E; [|reflexivity]. exfalso.
+      destruct (line_finder1_sound x c E) as [k [Hk [_ Hc]]]. exact (Hno k Hk Hc).
   Qed.
 End Line.
 
